@@ -5,9 +5,8 @@ from tools import coll, vlib
 class C08(vlib.Spec):
     model_vo = ["theories/Coll/ModelGHT.vo"]
     props_vo = "theories/Props/C08.vo"
-    theorems = ["C08_history", "C08_insert", "C08_contains", "C08_iter_nodup", "C08_merge", "C08_pcmp", "C08_eq",
-                "C08_prefix", "C08_find_leaf", "C08_join", "C08_join_nodup", "C08_cart", "C08_holds_b_sound",
-                "C08_pcmp_refuted"]
+    theorems = ["C08_history", "C08_insert", "C08_contains", "C08_iter_nodup", "C08_merge", "C08_pcmp", "C08_pcmp_rel", "C08_eq",
+                "C08_prefix", "C08_find_leaf", "C08_join", "C08_join_nodup", "C08_cart", "C08_holds_b_sound"]
     crate, group, binary = "h_coll", "light", "h_coll"
     imports = "From HV Require Import Coll.ModelGHT."
     harness_shards = 4
@@ -16,8 +15,7 @@ class C08(vlib.Spec):
                     "HashMap children are an association list in insertion order",
                     "correspondence harness harness/h_coll + tools/coll.py"]
     assumptions = ["model validated against lattices::ght only on the generated histories",
-                   "hash iteration order abstracted: row lists are compared as multisets; for tries of height >= 2 "
-                   "None vs panic of partial_cmp depends on HashMap iteration order and is compared up to that",
+                   "hash iteration order abstracted: row lists are compared as multisets",
                    "set storage (VariadicHashSetStd) in the leaves; COLT force / `forced` flag not covered"]
     rule = ("operation histories (1-40 ops) over two tries of one GhtType! shape (6 shapes: 0-3 key columns, "
             "0-2 value columns), tuple domain {0..3}^k: insert, merge_node / Merge::merge of the other trie, contains, "
